@@ -44,6 +44,17 @@ func main() {
 				return r.Run(&sc)
 			}
 		})
+	case "values":
+		simple(os.Args[2:], func(w *env.World, out *bufio.Writer) func([]byte) error {
+			r := &drive.ValRunner{W: w, Out: out}
+			return func(line []byte) error {
+				var b drive.ValBehaviour
+				if err := json.Unmarshal(line, &b); err != nil {
+					return err
+				}
+				return r.Run(&b)
+			}
+		})
 	case "netconf":
 		simple(os.Args[2:], func(w *env.World, out *bufio.Writer) func([]byte) error {
 			r := &drive.NCRunner{W: w, Out: out}
